@@ -141,6 +141,13 @@ func c11Cases(env *fw.Env) []c11Case {
 			if (st == "stall-t6" && !a) || (st == "stall-t7" && a) {
 				continue
 			}
+			if st == "stall-t8" {
+				for k := 1; k <= 16; k++ { // every stall offset in the 14-byte prefix and two in the body
+					add(c11Case{Kind: st, Active: a == (k%2 == 0), K: k})
+				}
+
+				continue
+			}
 			add(c11Case{Kind: st, Active: a})
 		}
 	}
@@ -411,9 +418,16 @@ func c11One(env *fw.Env, cs c11Case) {
 		}
 		env.Event("stall_cases", 1)
 	case "stall-t8":
-		_, _ = pc.C.Write([]byte{0, 0, 0, 30, 0x12, 0x34, 0x81})
+		// a 30-byte frame that stalls after exactly K bytes (K = 1..3 inside the length field, 4 right after it,
+		// 5..14 inside the header, beyond that in the body)
+		full := append([]byte{0, 0, 0, 30, 0x12, 0x34, 0x81, 0x05, 0, 0, 0, 0, 0, 9}, make([]byte, 20)...)
+		k := cs.K
+		if k <= 0 || k >= len(full) {
+			k = 7
+		}
+		_, _ = pc.C.Write(full[:k])
 		if !waitFor(10*time.Second, func() bool { return rawReadEOF(pc) }) {
-			fail("stall-not-dropped-t8", "a frame stalled after 7 bytes for 10 s (T8 150 ms) and the library kept the TCP connection")
+			fail("stall-not-dropped-t8", fmt.Sprintf("a frame stalled after %d bytes for 10 s (T8 150 ms) and the library kept the TCP connection", k))
 			return
 		}
 		env.Event("stall_cases", 1)
